@@ -236,17 +236,23 @@ func main() {
 			if len(fsp.Cases) > 0 {
 				cases = fsp.Cases
 			}
+			modes := []string{""}
+			if fsp.ConcAlso && hasProp(fsp.ConcProps, *prop) {
+				modes = []string{"seq", "conc"}
+			}
 			for _, cs := range cases {
-				rep := x.verifyFunc(fsp, cs, *prop)
-				// restrict to obligations of this property
-				var keepO []*Obl
-				for _, o := range rep.Obls {
-					if hasProp(o.Props, *prop) && (!guardOnly[key] || o.Tagged || o.Kind == "cover") {
-						keepO = append(keepO, o)
+				for _, mode := range modes {
+					rep := x.verifyFunc(fsp, cs, *prop, mode)
+					// restrict to obligations of this property
+					var keepO []*Obl
+					for _, o := range rep.Obls {
+						if hasProp(o.Props, *prop) && (!guardOnly[key] || o.Tagged || o.Kind == "cover") {
+							keepO = append(keepO, o)
+						}
 					}
+					rep.Obls = keepO
+					reps = append(reps, rep)
 				}
-				rep.Obls = keepO
-				reps = append(reps, rep)
 			}
 		}
 		for name := range x.usedLemmas {
